@@ -138,6 +138,30 @@ theorem isprime64_exact
       have := isprime64_complete p hp hlt
       rw [hr] at this; exact Option.some.inj this
 
+/-- The constants of `Hψ2` and `Hψ5` are sharp, and `SPRP` means what the literature means: ψ₂ is
+composite and a strong probable prime to bases 2 and 3 (not 5); ψ₅ to bases 2, 3, 5, 7, 11 (not
+13). Hence neither bound can be raised and the thresholds 2^20, 2^40 of the code cannot be moved
+above ψ₂, ψ₅. -/
+example : SPRP 1373653 2 ∧ SPRP 1373653 3 ∧ ¬ SPRP 1373653 5 ∧ ¬ Nat.Prime 1373653 := by
+  refine ⟨?_, ?_, ?_, ?_⟩
+  · exact (sprp_iff_millerBase _ _ (by decide) (by decide) (by decide)).2 (by decide +kernel)
+  · exact (sprp_iff_millerBase _ _ (by decide) (by decide) (by decide)).2 (by decide +kernel)
+  · rw [sprp_iff_millerBase _ _ (by decide) (by decide) (by decide)]; decide +kernel
+  · intro h
+    have := h.eq_one_or_self_of_dvd 829 ⟨1657, by decide⟩
+    omega
+
+example : (∀ b ∈ [2, 3, 5, 7, 11], SPRP 2152302898747 b) ∧ ¬ SPRP 2152302898747 13 ∧
+    ¬ Nat.Prime 2152302898747 := by
+  refine ⟨?_, ?_, ?_⟩
+  · intro b hb
+    rw [sprp_iff_millerBase _ _ (by decide) (by decide) (by decide)]
+    revert b; decide +kernel
+  · rw [sprp_iff_millerBase _ _ (by decide) (by decide) (by decide)]; decide +kernel
+  · intro h
+    have := h.eq_one_or_self_of_dvd 6763 ⟨10627 * 29947, by decide⟩
+    omega
+
 /-- the premise of soundness is satisfiable, and a composite that fools bases 2 and 3 alone
 (ψ₂ itself, above 2^20) is rejected by the model thanks to the second tier -/
 example : isprime64 1000003 = some true ∧ isprime64 1373653 = some false := by decide +kernel
